@@ -928,6 +928,34 @@ func (s *Sim) result(stuck, limit bool) Result {
 	return r
 }
 
+// Snapshot returns the workers that have not exited, as seen by the calling task (which holds the
+// baton, so every other worker is parked or blocked and the states are exact).
+//
+//go:norace
+func Snapshot() []WorkerInfo {
+	s := cur
+	if s == nil {
+		return nil
+	}
+	var out []WorkerInfo
+	var stacks map[uint64]string
+	for _, w := range s.workers {
+		if w.state == stExited || w == s.current {
+			continue
+		}
+		if stacks == nil {
+			stacks = allStacks()
+		}
+		wi := WorkerInfo{ID: w.id, Name: w.name, Task: w.task, State: stateNames[w.state]}
+		if st, ok := stacks[w.goid]; ok {
+			wi.Stack = st
+			wi.Funcs = stackFuncs(st)
+		}
+		out = append(out, wi)
+	}
+	return out
+}
+
 // teardown releases every worker that is parked in the scheduler so that its goroutine exits
 // (running deferred calls in pass-through mode). Natively blocked workers cannot be released.
 //
